@@ -3,7 +3,7 @@ TITLE = 'DeepLIFT/SHAP multipliers equal an independent rescale-rule computation
 CONTRACT_MODULES = ['contracts.dls_c']
 FUNCTIONS = ['tangermeme.deep_lift_shap._nonlinear', 'tangermeme.deep_lift_shap.hypothetical_attributions', 'tangermeme.deep_lift_shap._maxpool', 'tangermeme.deep_lift_shap.deep_lift_shap']
 BOUNDED = 'bounded.C05'
-BOUNDED_BUDGET = {'quick': 60, 'thorough': 600}
+BOUNDED_BUDGET = {'quick': 120, 'thorough': 600}
 LEVEL = 'other'
 EXPLANATION = "deductive: _nonlinear under contract (whole function): returned multiplier = grad_output*(out(x)-out(ref))/(in(x)-in(ref)) of the pair (r mod h) and the ordinary gradient grad_input where |in(x)-in(ref)| < 1e-6; hypothetical_attributions under contract (whole function): value for character k at a position = sum_c (e_k - ref)[c]*m[c], inputs unwritten. _maxpool (whole function, MaxPool1d): the pooling indices are recomputed on the captured input with the own kernel_size / stride / padding / dilation / ceil_mode of the module (one index per window of the captured output), every window contributes grad_output*delta_out at the position of its maximum (shared positions accumulate), halves summed and divided by in(x)-in(ref); deep_lift_shap (whole function): result[e] = mean over the ns pairs of example e of the hypothetical projection of the per-pair multipliers, masked by X[e] (composition of the pieces above, for every batch size). NOT under contract: autograd's propagation through the linear layers and hook dispatch - bounded stand-in: multipliers/attributions against an independent layer-by-layer rescale-rule oracle"
 ASSUMPTIONS = ['torch.autograd propagates multipliers through linear layers by their transposes and hands (grad_input, grad_output) to the registered hooks', 'module.input/module.output hold the activations of the concatenated [examples; references] batch (set by _fp_hook/_f_hook)', 'floats treated as reals']
